@@ -435,101 +435,133 @@ func init() {
 
 	register(&Rule{
 		Name:  "TAB-dots",
-		Doc:   "the literals recognised as single- and double-dot path segments are {., %2e} and {.., .%2e, %2e., %2e%2e}, the escaped forms compared case-insensitively",
+		Doc:   "the spellings accepted as single- and double-dot path segments are exactly the ASCII case variants of {., %2e} and {.., .%2e, %2e., %2e%2e} (read off the comparisons of the SSA form: exact comparisons of the parameter, and comparisons of its lower-cased copy)",
 		Props: []string{"C01", "C18"},
 		Floor: 2,
 		Run: func(c *Ctx, s *core.Sink) {
 			spec := loadSetsSpec(c)
-			pk := c.P.ByName["url"]
-			info := pk.TypesInfo
 			for _, t := range []struct {
 				fn   string
 				want []string
 			}{{"isSingleDotPathSegment", spec.Dots.Single}, {"isDoubleDotPathSegment", spec.Dots.Double}} {
 				key := "dots/" + t.fn
-				fn := c.P.Func("url", "", t.fn)
-				if fn == nil {
+				f := c.P.Func("url", "", t.fn)
+				if f == nil {
 					s.Unknown(key, "-", "anchor function not found")
 					continue
 				}
-				fd := c.P.Decl(fn)
-				param := info.Defs[fd.Type.Params.List[0].Names[0]]
-				lowered := token.Pos(0) // position after which the parameter holds its lower-cased value
-				var lits []struct {
-					s   string
-					pos token.Pos
-				}
+				param := ssa.Value(f.Params[0])
+				exact, lower, upper, fold := map[string]bool{}, map[string]bool{}, map[string]bool{}, map[string]bool{}
 				bad := ""
-				ast.Inspect(fd.Body, func(n ast.Node) bool {
-					switch x := n.(type) {
-					case *ast.AssignStmt:
-						if len(x.Lhs) == 1 && len(x.Rhs) == 1 {
-							if id, ok := x.Lhs[0].(*ast.Ident); ok && info.Uses[id] == param {
-								if call, ok := x.Rhs[0].(*ast.CallExpr); ok {
-									if f, _ := typeutil.Callee(info, call).(*types.Func); f != nil && (f.FullName() == "strings.ToLower" || f.FullName() == "strings.ToUpper") && len(call.Args) == 1 {
-										if aid, ok := call.Args[0].(*ast.Ident); ok && info.Uses[aid] == param {
-											lowered = x.End()
-											if f.FullName() == "strings.ToUpper" {
-												bad = "upper-casing: literals would have to be upper-case"
-											}
-											return true
+				for _, b := range f.Blocks {
+					for _, ins := range b.Instrs {
+						switch x := ins.(type) {
+						case *ssa.BinOp:
+							if x.Op != token.EQL && x.Op != token.NEQ {
+								continue
+							}
+							for _, pr := range [][2]ssa.Value{{x.X, x.Y}, {x.Y, x.X}} {
+								lit, ok := constString(pr[1])
+								if !ok {
+									continue
+								}
+								switch v := pr[0].(type) {
+								case *ssa.Parameter:
+									if ssa.Value(v) == param {
+										exact[lit] = true
+									}
+								case *ssa.Call:
+									if cl := v.Common().StaticCallee(); cl != nil && len(v.Common().Args) == 1 && v.Common().Args[0] == param {
+										switch cl.String() {
+										case "strings.ToLower":
+											lower[lit] = true
+										case "strings.ToUpper":
+											upper[lit] = true
+										default:
+											bad = "comparison of " + cl.String() + "(s)"
+										}
+									}
+								case *ssa.Phi:
+									// s = strings.ToLower(s) re-assigned: every edge must be the lower-cased parameter
+									allLower := len(v.Edges) > 0
+									for _, e := range v.Edges {
+										if call, ok := e.(*ssa.Call); !ok || call.Common().StaticCallee() == nil || call.Common().StaticCallee().String() != "strings.ToLower" || call.Common().Args[0] != param {
+											allLower = false
+										}
+									}
+									if allLower {
+										lower[lit] = true
+									} else {
+										bad = "comparison of a value that is neither s nor its lower-cased copy"
+									}
+								}
+							}
+						case *ssa.Call:
+							if cl := x.Common().StaticCallee(); cl != nil && cl.String() == "strings.EqualFold" {
+								for i, a := range x.Common().Args {
+									if a == param {
+										if lit, ok := constString(x.Common().Args[1-i]); ok {
+											fold[lit] = true
 										}
 									}
 								}
-								bad = "parameter reassigned to something else than its lower-cased value"
-							}
-						}
-					case *ast.BinaryExpr:
-						if x.Op == token.EQL {
-							for _, pr := range [][2]ast.Expr{{x.X, x.Y}, {x.Y, x.X}} {
-								if id, ok := ast.Unparen(pr[0]).(*ast.Ident); ok && info.Uses[id] == param {
-									if tv, ok := info.Types[pr[1]]; ok && tv.Value != nil && tv.Value.Kind() == constant.String {
-										lits = append(lits, struct {
-											s   string
-											pos token.Pos
-										}{constant.StringVal(tv.Value), x.Pos()})
-									}
-								}
 							}
 						}
 					}
-					return true
-				})
-				got := map[string]bool{}
-				for _, l := range lits {
-					hasLetter := strings.ToLower(l.s) != strings.ToUpper(l.s)
-					if hasLetter && (lowered == 0 || l.pos < lowered) {
-						// exact-case comparison of a literal with letters: the other case must be present too
-						other := strings.ToUpper(l.s)
-						if other == l.s {
-							other = strings.ToLower(l.s)
-						}
-						found := false
-						for _, l2 := range lits {
-							if l2.s == other {
-								found = true
+				}
+				accepts := func(v string) bool {
+					return exact[v] || lower[strings.ToLower(v)] || upper[strings.ToUpper(v)] || func() bool {
+						for l := range fold {
+							if strings.EqualFold(l, v) {
+								return true
 							}
 						}
-						if !found {
-							bad = fmt.Sprintf("%q is compared case-sensitively", l.s)
+						return false
+					}()
+				}
+				variants := func(w string) []string {
+					out := []string{""}
+					for _, ch := range w {
+						var next []string
+						for _, p := range out {
+							lo, up := strings.ToLower(string(ch)), strings.ToUpper(string(ch))
+							next = append(next, p+lo)
+							if up != lo {
+								next = append(next, p+up)
+							}
+						}
+						out = next
+					}
+					return out
+				}
+				var missing []string
+				wantLower := map[string]bool{}
+				for _, w := range t.want {
+					wantLower[strings.ToLower(w)] = true
+					for _, v := range variants(w) {
+						if !accepts(v) {
+							missing = append(missing, v)
 						}
 					}
-					if hasLetter && lowered != 0 && l.pos >= lowered && l.s != strings.ToLower(l.s) {
-						bad = fmt.Sprintf("%q can never equal a lower-cased string", l.s)
+				}
+				var extra []string
+				for _, m := range []map[string]bool{exact, lower, upper, fold} {
+					for l := range m {
+						if !wantLower[strings.ToLower(l)] {
+							extra = append(extra, l)
+						}
 					}
-					got[strings.ToLower(l.s)] = true
 				}
-				var gl []string
-				for k := range got {
-					gl = append(gl, k)
+				sort.Strings(missing)
+				sort.Strings(extra)
+				switch {
+				case bad != "":
+					s.Unknown(key, c.P.Pos(f.Pos()), bad)
+				case len(missing) > 0 || len(extra) > 0:
+					s.Bad(key, c.P.Pos(f.Pos()), fmt.Sprintf("spellings not recognised: %q; spellings recognised beyond the standard: %q", missing, extra))
+				default:
+					s.OK(key, c.P.Pos(f.Pos()), fmt.Sprintf("accepts every ASCII case variant of %q and nothing else", t.want))
 				}
-				sort.Strings(gl)
-				wl := append([]string(nil), t.want...)
-				sort.Strings(wl)
-				if bad == "" && strings.Join(gl, "|") != strings.Join(wl, "|") {
-					bad = fmt.Sprintf("recognises %q, the standard %q", gl, wl)
-				}
-				s.Check(bad == "", key, c.P.Pos(fd.Pos()), fmt.Sprintf("recognises %q (ASCII case-insensitive)", wl), bad)
 			}
 		},
 	})
@@ -711,8 +743,15 @@ func init() {
 					args := call.Common().Args
 					sep := ""
 					if len(args) >= 2 {
-						if k, ok := args[1].(*ssa.Const); ok && k.Value != nil && k.Value.Kind() == constant.String {
-							sep = constant.StringVal(k.Value)
+						if k, ok := args[1].(*ssa.Const); ok && k.Value != nil {
+							switch k.Value.Kind() {
+							case constant.String:
+								sep = constant.StringVal(k.Value)
+							case constant.Int:
+								if n, ok := constant.Int64Val(k.Value); ok && n > 0 && n < 128 {
+									sep = string(rune(n)) // IndexByte / IndexRune
+								}
+							}
 						}
 					}
 					desc := cl.Name()
@@ -731,8 +770,90 @@ func init() {
 					}
 				}
 			}
+			// the only way a sequence is skipped is by being empty before it is split
+			loops := loopsOf(f)
+			var appendBlock *ssa.BasicBlock
+			for _, b := range f.Blocks {
+				for _, ins := range b.Instrs {
+					if call, ok := ins.(*ssa.Call); ok {
+						if bi, ok := call.Common().Value.(*ssa.Builtin); ok && bi.Name() == "append" {
+							if _, ok := loadOfField(call.Common().Args[0], "SearchParams:params"); ok {
+								appendBlock = b
+							}
+						}
+					}
+				}
+			}
+			if appendBlock == nil || len(inLoops(loops, appendBlock)) == 0 {
+				s.Bad("urlsplit/skip", c.P.Pos(f.Pos()), "no loop appending pairs to the list found")
+			} else {
+				l := inLoops(loops, appendBlock)[0]
+				reachesAppend := func(from *ssa.BasicBlock) bool {
+					seen := map[*ssa.BasicBlock]bool{}
+					work := []*ssa.BasicBlock{from}
+					for len(work) > 0 {
+						b := work[len(work)-1]
+						work = work[:len(work)-1]
+						if b == appendBlock {
+							return true
+						}
+						if seen[b] || !l.Blocks[b] || b == l.Header {
+							continue
+						}
+						seen[b] = true
+						work = append(work, b.Succs...)
+					}
+					return false
+				}
+				var badSkips []string
+				nSkips := 0
+				for b := range l.Blocks {
+					iff, ok := lastIf(b)
+					if !ok || b == l.Header {
+						continue
+					}
+					if !reachesAppend(b) && b != appendBlock {
+						continue
+					}
+					for si, succ := range b.Succs {
+						if !l.Blocks[succ] || reachesAppend(succ) {
+							continue
+						}
+						// this edge skips the pair
+						nSkips++
+						okSkip := false
+						for _, nf := range normFact(iff.Cond, si == 0) {
+							if bo, ok := nf.Cond.(*ssa.BinOp); ok && bo.Op == token.EQL && nf.Val {
+								for _, pr := range [][2]ssa.Value{{bo.X, bo.Y}, {bo.Y, bo.X}} {
+									if k, ok := constString(pr[1]); ok && k == "" {
+										// the raw sequence: an element of the '&' split
+										if ld, ok := pr[0].(*ssa.UnOp); ok {
+											if ia, ok := ld.X.(*ssa.IndexAddr); ok {
+												if sc, ok := ia.X.(*ssa.Call); ok && sc.Common().StaticCallee() != nil && core.PkgPathOf(sc.Common().StaticCallee()) == "strings" {
+													okSkip = true
+												}
+											}
+										}
+									}
+								}
+							}
+						}
+						if !okSkip {
+							badSkips = append(badSkips, "a sequence is skipped on "+iff.Cond.String()+" at "+c.P.Pos(iff.Cond.Pos()))
+						}
+					}
+				}
+				switch {
+				case len(badSkips) > 0:
+					s.Bad("urlsplit/skip", c.P.Pos(f.Pos()), "only empty sequences may be skipped, before they are split: "+strings.Join(badSkips, "; "))
+				case nSkips == 0:
+					s.Bad("urlsplit/skip", c.P.Pos(f.Pos()), "empty sequences are not skipped")
+				default:
+					s.OK("urlsplit/skip", c.P.Pos(f.Pos()), "a sequence is skipped only when the raw sequence is empty")
+				}
+			}
 			s.Check(len(amp) == 1 && amp[0] == "Split", "urlsplit/pairs", c.P.Pos(ampPos), "pairs are split on every &", fmt.Sprintf("pair splitting is %v, want one strings.Split on \"&\"", amp))
-			okEq := len(eq) == 1 && (eq[0] == `SplitN(…, "=", 2)` || eq[0] == "Cut" || eq[0] == "Index" || eq[0] == "IndexByte")
+			okEq := len(eq) == 1 && (eq[0] == `SplitN(…, "=", 2)` || eq[0] == "Cut" || eq[0] == "Index" || eq[0] == "IndexByte" || eq[0] == "IndexRune")
 			s.Check(okEq, "urlsplit/namevalue", c.P.Pos(eqPos), "name and value are split at the first = only", fmt.Sprintf("name/value splitting is %v, want a first-occurrence split on \"=\"", eq))
 		},
 	})
